@@ -22,6 +22,9 @@ type MockDef struct {
 	Resets    bool
 	Generic   bool
 	Labels    []string
+	// Unexported hands out the members of the mock that belong to unexported interface methods (method values and
+	// pointers to the function fields), obtained inside the mock's own package: name -> func value / *func
+	Unexported func(mock any) map[string]any
 }
 
 var Registry []MockDef
@@ -111,14 +114,26 @@ func newHandle(def *MockDef) (*handle, error) {
 	it := def.IfaceType
 	for i := 0; i < it.NumMethod(); i++ {
 		im := it.Method(i)
-		if im.PkgPath != "" {
-			continue // unexported interface methods cannot be driven through reflection
-		}
 		m := meth{name: im.Name, typ: im.Type}
-		m.call = h.ptr.MethodByName(im.Name)
-		m.calls = h.ptr.MethodByName(im.Name + "Calls")
-		m.reset = h.ptr.MethodByName("Reset" + im.Name + "Calls")
-		m.field = st.FieldByName(im.Name + "Func")
+		if im.PkgPath != "" {
+			// unexported interface method: reflection cannot reach it by name, the glue hands it out
+			if def.Unexported == nil {
+				continue
+			}
+			mem := def.Unexported(h.ptr.Interface())
+			if mem[im.Name] == nil || mem[im.Name+"Calls"] == nil || mem[im.Name+"Func"] == nil {
+				return nil, fmt.Errorf("mock %s: glue does not expose unexported method %s", def.ID, im.Name)
+			}
+			m.call = reflect.ValueOf(mem[im.Name])
+			m.calls = reflect.ValueOf(mem[im.Name+"Calls"])
+			m.field = reflect.ValueOf(mem[im.Name+"Func"]).Elem()
+			m.reset = h.ptr.MethodByName("Reset" + im.Name + "Calls")
+		} else {
+			m.call = h.ptr.MethodByName(im.Name)
+			m.calls = h.ptr.MethodByName(im.Name + "Calls")
+			m.reset = h.ptr.MethodByName("Reset" + im.Name + "Calls")
+			m.field = st.FieldByName(im.Name + "Func")
+		}
 		if !m.call.IsValid() || !m.calls.IsValid() || !m.field.IsValid() {
 			return nil, fmt.Errorf("mock %s: method %s, %sCalls or field %sFunc missing", def.ID, im.Name, im.Name, im.Name)
 		}
@@ -425,6 +440,10 @@ func (h *handle) doCall(mi int, op Op) {
 		panicked = false
 	}()
 	name := h.def.MockName + "." + m.name
+	// whatever happened (return or panic): no internal lock may be left held; probe before touching the mock again
+	if h.depth == 0 && !h.probeLocks("after "+name+" returned/panicked") {
+		return
+	}
 	tripped := h.tripped[trippedBefore:]
 	if h.depth == 0 && len(tripped) > 0 && behav != "nested" {
 		h.bad("C03", "no-other-func", "calling %s invoked the function field of %v", name, tripped)
